@@ -118,6 +118,7 @@ pub fn ck<T: Kb>(x: &T) -> u8 { x.kb() & 0x3c }
 pub fn ck_cmp<T: Kb>(a: &T, b: &T) -> Ordering { ck(a).cmp(&ck(b)) }
 pub fn ck_pcmp<T: Kb>(a: &T, b: &T) -> Option<Ordering> { Some(ck(a).cmp(&ck(b))) }
 /// a genuinely partial order that is still coherent with ck / ck_eq (0x0c is incomparable with everything but itself); only used when Ord is not derived
+pub fn ck_pcmp_nr<T: Kb>(a: &T, b: &T) -> Option<Ordering> { let (x, y) = (ck(a), ck(b)); if x == 0x0c || y == 0x0c { None } else { Some(x.cmp(&y)) } }
 pub fn ck_pcmp_p<T: Kb>(a: &T, b: &T) -> Option<Ordering> { let (x, y) = (ck(a), ck(b)); if x == y { Some(Ordering::Equal) } else if x == 0x0c || y == 0x0c { None } else { Some(x.cmp(&y)) } }
 pub fn ck_eq<T: Kb>(a: &T, b: &T) -> bool { ck(a) == ck(b) }
 pub fn ck_hash<T: Kb, H: Hasher>(a: &T, h: &mut H) { ck(a).hash(h) }
